@@ -58,7 +58,9 @@ struct Fractional : Vec3 {
     return Fractional(Vec3::operator+(o));
   }
   Fractional wrap_to_unit() const {
-    return {x - std::floor(x), y - std::floor(y), z - std::floor(z)};
+    // v - floor(v) rounds to 1.0 for a tiny negative v; the result must be in [0,1)
+    auto wrap = [](double v) { double r = v - std::floor(v); return r == 1. ? 0. : r; };
+    return {wrap(x), wrap(y), wrap(z)};
   }
   Fractional wrap_to_zero() const {
     return {x - std::round(x), y - std::round(y), z - std::round(z)};
